@@ -3,7 +3,8 @@
    from the definitions."  The model is Bft/Model.v (tied to bft.Engine / bft.justifier by the correspondence run). *)
 From Coq Require Import List NArith Bool Lia.
 From Verif Require Import Common.Util Bft.Tree Bft.Model Bft.Quorum Bft.ProofsTally Bft.ProofsChain Bft.ProofsSearch
-  Bft.ProofsNode Bft.Safety Bft.ProofsWitness Bft.ProofsCommit Bft.ProofsOrder Bft.ProofsOrder2 Bft.ProofsOrder3 Bft.ProofsOrder4.
+  Bft.ProofsNode Bft.Safety Bft.ProofsWitness Bft.ProofsCommit Bft.ProofsOrder Bft.ProofsOrder2 Bft.ProofsOrder3 Bft.ProofsOrder4
+  Bft.ProofsLive Bft.ProofsVote Bft.ProofsJustified.
 Import ListNotations.
 Open Scope N_scope.
 
@@ -25,6 +26,19 @@ Theorem incremental_eq_scratch c pq segp segp' b :
   summarize (add_blk c (tally c pq segp') b) = summarize (tally c pq (b :: segp)).
 Proof. intros Hs. apply js_equiv_summarize. exact (incremental_eq_scratch_lemma c pq segp segp' b Hs). Qed.
 
+(* 2b. what the tally IS, declaratively (no reference to AddBlock): the votes map holds exactly the distinct signers of the
+       segment, each with its weight; a signer's recorded vote is COM iff every block it signed in the segment is COM; the
+       counters are the sums over that map; the thresholds are the configured ones.  Both the incremental and the rebuilt
+       tally satisfy it (they are the same fold), so "equals the tally recomputed from the definitions" has a definition. *)
+Theorem tally_is_declarative_spec c pq seg :
+  let js := tally c pq seg in
+  NoDup (keys (j_votes js)) /\ (forall s, In s (keys (j_votes js)) <-> In s (signers seg)) /\
+  (forall s v, In (s, v) (j_votes js) -> v_w v = weight_of c s) /\
+  j_jw js = sumf v_w (j_votes js) /\ j_com js = sumf f_one (j_votes js) /\ j_comw js = sumf f_comw (j_votes js) /\
+  j_tv js = thr_votes c /\ j_tw js = thr_weight c /\
+  (forall s v, In (s, v) (j_votes js) -> v_com v = allcom (map (vote_of c) seg) s).
+Proof. exact (tally_keys c pq seg). Qed.
+
 (* 3. along any import history (any tree, any parent-before-child order, duplicates, refused blocks) of a node: the
       repository stays well formed, every persisted quality record equals the quality computed from the definitions
       (no records, no caches: state_pure), and the best block beats every other stored block in the total order
@@ -38,6 +52,10 @@ Theorem stored_quality_is_from_scratch c nd x : 0 < c_L c -> inv c nd -> In x (n
   s_q (compute_state c (n_repo nd) (e_qs (n_eng nd)) x) = quality_pure c (chain_of (n_repo nd) (b_id x)).
 Proof. intros HL Hi Hin. exact (compute_state_stored c HL _ _ x (inv_wf c nd Hi) (inv_qs c nd Hi) Hin). Qed.
 
+Theorem stored_state_is_from_scratch c nd x : 0 < c_L c -> inv c nd -> In x (n_repo nd) ->
+  compute_state c (n_repo nd) (e_qs (n_eng nd)) x = state_pure c (chain_of (n_repo nd) (b_id x)).
+Proof. intros HL Hi Hin. exact (compute_state_stored_full c HL _ _ x (inv_wf c nd Hi) (inv_qs c nd Hi) Hin). Qed.
+
 Theorem best_is_max c nd x : inv c nd -> In x (n_repo nd) -> b_id x <> n_best nd ->
   beats c (n_repo nd) (best_blk nd) x = true.
 Proof. intros Hi. exact (inv_max c nd Hi x). Qed.
@@ -49,6 +67,14 @@ Theorem best_order_independent c n1 n2 : 0 < c_L c -> inv c n1 -> inv c n2 ->
   (forall x, In x (n_repo n1) -> qual c (n_repo n1) x = qual c (n_repo n2) x) ->
   n_best n1 = n_best n2.
 Proof. intros HL. exact (same_repo_same_best c HL n1 n2). Qed.
+
+(* the premise on qualities is derivable (chains are a function of the set) *)
+Theorem best_is_function_of_stored_set c n1 n2 : 0 < c_L c -> inv c n1 -> inv c n2 ->
+  (forall x, In x (n_repo n1) <-> In x (n_repo n2)) -> n_best n1 = n_best n2.
+Proof.
+  intros HL I1 I2 Hset. apply (same_repo_same_best c HL n1 n2 I1 I2 Hset). intros x Hx. unfold qual.
+  rewrite (chain_of_set_eq _ _ (b_id x) (inv_wf c _ I1) (inv_wf c _ I2) Hset). reflexivity.
+Qed.
 
 (* 3b. import_set_order_independent (first sentence, for consistent trees: in every well-formed repository drawn from the
        tree all finalizing blocks — committed store points of quality > 1 — lie on one chain).  Two nodes run arbitrary
@@ -76,14 +102,55 @@ Theorem chain_is_function_of_set r1 r2 id : wf_repo r1 -> wf_repo r2 -> (forall 
   chain_of r1 id = chain_of r2 id.
 Proof. exact (chain_of_set_eq r1 r2 id). Qed.
 
-(* Justified(): same stored set, same finalized, empty one-entry cache (e.g. after a restart) => same answer for the
-   same best block.  _partial: coherence of the cache (keyed by the store-point id only) with a finalized that moved in
-   between is not proved. *)
-Theorem justified_order_independent_partial c r1 r2 e1 e2 best : 0 < c_L c ->
-  wf_repo r1 -> wf_repo r2 -> (forall x, In x r1 <-> In x r2) -> qs_ok c r1 (e_qs e1) -> qs_ok c r2 (e_qs e2) ->
-  e_fin e1 = e_fin e2 -> e_jc e1 = None -> e_jc e2 = None ->
-  snd (justified c r1 e1 best) = snd (justified c r2 e2 best).
-Proof. intros HL. exact (justified_set_eq c HL r1 r2 e1 e2 best). Qed.
+(* Justified().  The one-entry cache is keyed by (store point, finalized) since the repair in /repo (942a798); the model
+   carries both variants (justified_gen keyed).
+   (i)   after ANY history of imports, own proposals, restarts and Justified() queries a warm cache answers exactly what a
+         cold cache answers (no hypothesis on the tree);
+   (ii)  hence two nodes that store the same set and hold the same finalized checkpoint answer the same, whatever their
+         histories of queries and restarts were;
+   (iii) with the entry keyed by the store point only (the code before the repair) this is false: on a CONSISTENT tree two
+         nodes with the same stored blocks, best block and finalized checkpoint answer 8W and 12W (F15, replayed on the real
+         engine, fixed). *)
+Theorem justified_independent_of_cache_history c g master h :
+  let nd := run_nev c (init_node g master) h in
+  snd (justified c (n_repo nd) (n_eng nd) (best_blk nd)) = snd (justified c (n_repo nd) (clear_jc (n_eng nd)) (best_blk nd)).
+Proof. exact (justified_history_independent_of_cache c g master h). Qed.
+
+Theorem justified_order_independent c n1 n2 : 0 < c_L c -> inv c n1 -> inv c n2 -> node_jc c n1 -> node_jc c n2 ->
+  (forall x, In x (n_repo n1) <-> In x (n_repo n2)) -> e_fin (n_eng n1) = e_fin (n_eng n2) ->
+  snd (justified c (n_repo n1) (n_eng n1) (best_blk n1)) = snd (justified c (n_repo n2) (n_eng n2) (best_blk n2)).
+Proof.
+  intros HL I1 I2 J1 J2 Hset Hfin.
+  rewrite (justified_cache_transparent c _ _ _ J1), (justified_cache_transparent c _ _ _ J2).
+  assert (Hb : best_blk n1 = best_blk n2).
+  { pose proof (best_is_function_of_stored_set c n1 n2 HL I1 I2 Hset) as E. unfold best_blk. rewrite <- E.
+    destruct (inv_best c _ I1) as [b1 H1]. rewrite H1. destruct (find_blk_id _ _ _ H1) as [Hid Hin].
+    rewrite <- Hid. rewrite (chain_of_stored _ b1 (inv_wf c _ I2) (proj1 (Hset b1) Hin)). reflexivity. }
+  rewrite Hb. apply (justified_set_eq c HL); try reflexivity; try assumption;
+    [exact (inv_wf c _ I1) | exact (inv_wf c _ I2) | exact (inv_qs c _ I1) | exact (inv_qs c _ I2)].
+Qed.
+
+Theorem node_jc_along_histories c g master h : node_jc c (run_nev c (init_node g master) h).
+Proof. apply run_nev_jc. exact Logic.I. Qed.
+
+Theorem justified_stale_cache_before_repair :
+  n_repo (j_node_a false) = n_repo j_node_b /\ n_best (j_node_a false) = n_best j_node_b /\
+  e_fin (n_eng (j_node_a false)) = e_fin (n_eng j_node_b) /\ e_fin (n_eng j_node_b) = b_id (js 12) /\
+  snd (justified_gen false cfg4 (n_repo (j_node_a false)) (n_eng (j_node_a false)) (best_blk (j_node_a false))) = Ok (b_id (jw 8)) /\
+  snd (justified_gen false cfg4 (n_repo j_node_b) (n_eng j_node_b) (best_blk j_node_b)) = Ok (b_id (jw 12)) /\
+  snd (justified cfg4 (n_repo (j_node_a true)) (n_eng (j_node_a true)) (best_blk (j_node_a true))) = Ok (b_id (jw 12)).
+Proof. exact stale_cache_witness. Qed.
+
+(* the gap between "stored" and "received": the same blocks received in another parent-before-child order (branch S before
+   branch W of the consistent tree j_tree) are not all stored - Accepts refuses W once 12S is finalized - and the node reports
+   another best block.  So best/finalized/justified are functions of the set STORED (what the theorems above say), not of
+   the set received; this is the behaviour C03 demands ("blocks that do not descend from it are refused"). *)
+Theorem received_order_matters :
+  (forall b, In (Some b) j_h1 <-> In (Some b) j_h3) /\
+  n_best (run_node cfg4 (init_node gen 1) j_h1) = b_id (jw 20) /\ n_best (run_node cfg4 (init_node gen 1) j_h3) = b_id (js 19) /\
+  length (n_repo (run_node cfg4 (init_node gen 1) j_h1)) = 37%nat /\ length (n_repo (run_node cfg4 (init_node gen 1) j_h3)) = 20%nat /\
+  e_fin (n_eng (run_node cfg4 (init_node gen 1) j_h1)) = e_fin (n_eng (run_node cfg4 (init_node gen 1) j_h3)).
+Proof. exact received_order_matters_witness. Qed.
 
 (* 4. quality never decreases along a chain and grows by at most one per block *)
 Theorem quality_monotone c b t : 0 < c_L c -> grounded (b :: t) ->
@@ -141,6 +208,22 @@ Proof.
   split; (split; [vm_compute; tauto | split; [vm_compute; reflexivity | split; [vm_compute; reflexivity | vm_compute; reflexivity]]]).
 Qed.
 
+(* a FORKED consistent tree (two branches of 17 and 16 blocks after a common prefix, one finalizing block) and two different
+   histories over it (different orders, a duplicate, restarts) that end up storing the same set: every hypothesis of
+   import_set_order_independent is discharged, and finalized really moved (12S) while best is on the other branch (20W) *)
+Example forked_consistent_tree_example :
+  tree_consistent cfg4 j_tree /\ In gen j_tree /\
+  (forall b, In (Some b) j_h1 \/ In (Some b) j_h2 -> In b j_tree) /\
+  (forall nd b, inv cfg4 nd -> In (Some b) j_h1 \/ In (Some b) j_h2 -> valid_child (n_repo nd) b) /\
+  (forall x, In x (n_repo (run_node cfg4 (init_node gen 1) j_h1)) <-> In x (n_repo (run_node cfg4 (init_node gen 2) j_h2))) /\
+  j_h1 <> j_h2 /\
+  n_best (run_node cfg4 (init_node gen 1) j_h1) = b_id (jw 20) /\ e_fin (n_eng (run_node cfg4 (init_node gen 1) j_h1)) = b_id (js 12).
+Proof.
+  split; [exact j_tree_consistent|]. split; [|exact j_histories_instance].
+  assert (H : existsb (blk_eqb gen) j_tree = true) by (vm_compute; reflexivity).
+  apply existsb_exists in H. destruct H as [y [Hy E]]. rewrite (Verif.Bft.ProofsTree2.blk_eqb_eq gen y E). exact Hy.
+Qed.
+
 Example search_example : (* qualities 1,2,2,3 per epoch, committed epoch has quality 3: the search finds index 1 *)
   bsearch 5 (fun i => Ok (2 <=? nth (N.to_nat i) [1;2;2;3] 0)) 0 4 = Ok 1.
 Proof. vm_compute. reflexivity. Qed.
@@ -154,7 +237,14 @@ Print Assumptions best_order_independent.
 Print Assumptions import_set_order_independent.
 Print Assumptions finalized_is_function_of_set.
 Print Assumptions chain_is_function_of_set.
-Print Assumptions justified_order_independent_partial.
+Print Assumptions justified_independent_of_cache_history.
+Print Assumptions justified_order_independent.
+Print Assumptions node_jc_along_histories.
+Print Assumptions justified_stale_cache_before_repair.
+Print Assumptions received_order_matters.
+Print Assumptions tally_is_declarative_spec.
+Print Assumptions stored_state_is_from_scratch.
+Print Assumptions best_is_function_of_stored_set.
 Print Assumptions quality_monotone.
 Print Assumptions commit_block_total.
 Print Assumptions accepted_block_imports_without_error.
